@@ -12,6 +12,8 @@
  *  (B) cnbit.c     T nbit enc/dec/proj ...   (see below)
  *  (C) cskphuff.c  T skphuff enc/dec ...
  *  (E) cskphuff.c, unit level   T skphuff splay <left> <right> <up> <plain> => <left'> <right'> <up'>   (HCIcskphuff_splay on one tree)
+ *  (F) cnbit.c, unit level      T nbit finit/fenc/fdec/feof ...   the static HCIcnbit_init / HCIcnbit_encode / HCIcnbit_decode called
+ *                               directly on a hand-built compinfo_t (any nt_size 1..16, any byte partition)
  *
  * Oracles (implementation side only, independent of the Lean model): an independent C bit packer/unpacker
  * (shadow bit array); n-bit read-back equals the documented projection computed arithmetically on the integer
@@ -24,6 +26,9 @@
 #include "skpgen.h"               /* independent replica of the code tree: steers the generators, measures code lengths, decodes */
 #include "hdf/src/cskphuff.c" /* resolved through -I<REPO>: for the static HCIcskphuff_splay; the library's cskphuff.o is then not linked
                                  (every external symbol of it is defined here), so the whole engine runs this copy of the coder */
+
+#include "hdf/src/cnbit.c"    /* for the static HCIcnbit_init / HCIcnbit_encode / HCIcnbit_decode (scenario F); as above, the library's
+                                 cnbit.o is then not linked and the whole engine runs this copy of the n-bit coder */
 
 #define MAXB 40000
 static uint8_t raw[MAXB + 16], shadow[MAXB + 16], data[MAXB + 16], rbuf[MAXB + 16];
@@ -454,6 +459,155 @@ static void case_nbit(int k)
     Hclose(fid);
 }
 
+/* ------------------------------------------------------------------ (F) n-bit coder, unit level: the static functions of cnbit.c called
+ * directly on a compinfo_t built by hand (its `aid` is a real bit id on element 1005/7), so that every nt_size 1..NBIT_MASK_SIZE and
+ * every partition of a write / a read into calls - also calls that cut a value - is reached:
+ *   T nbit finit <nt_size> <sign> <fill> <start> <len> => <offsets>;<lengths>;<masks>;<mask_buf>  the tables HCIcnbit_init builds
+ *                                                         (mask_info[0..nt_size) as comma lists, mask_buf[0..nt_size))
+ *   T nbit fenc  <cfg> <hex data> <n,...> => <hex raw>    HCIcnbit_encode called with these byte counts, Hendbitaccess(aid,0), raw bytes
+ *   T nbit fdec  <cfg> <hex raw> <n,...> => <hex out>     HCIcnbit_init, then HCIcnbit_decode called with these byte counts (any sizes)
+ *   T nbit feof  <cfg> <hex raw> <n> => ok|fail           one HCIcnbit_decode call that asks for more than the element holds
+ * oracle: for whole values of the sizes 1,2,4,8 the bytes read back are the documented projection (computed on the integer value)   */
+static void nbit_fn_setup(compinfo_t *info, accrec_t *rec, int32 bid, int sz, int sign, int fill, int start, int len)
+{
+    memset(info, 0, sizeof *info); memset(rec, 0, sizeof *rec);
+    info->aid = bid;
+    info->cinfo.coder_info.nbit_info.nt = DFNT_UINT8; info->cinfo.coder_info.nbit_info.nt_size = sz;
+    info->cinfo.coder_info.nbit_info.sign_ext = sign; info->cinfo.coder_info.nbit_info.fill_one = fill;
+    info->cinfo.coder_info.nbit_info.mask_off = start; info->cinfo.coder_info.nbit_info.mask_len = len;
+    memset(info->cinfo.coder_info.nbit_info.buffer, 0xBE, NBIT_BUF_SIZE);   /* stale content of the expansion buffer */
+    memset(info->cinfo.coder_info.nbit_info.mask_buf, 0x5A, NBIT_MASK_SIZE);
+    memset(info->cinfo.coder_info.nbit_info.mask_info, 0x77, sizeof info->cinfo.coder_info.nbit_info.mask_info);
+    info->cinfo.coder_info.nbit_info.buf_pos = 3; info->cinfo.coder_info.nbit_info.buf_len = 9;
+    info->cinfo.coder_info.nbit_info.nt_pos = 1; info->cinfo.coder_info.nbit_info.offset = 77;
+    rec->special_info = info;
+}
+
+static void case_nbit_fn(void)
+{
+    static compinfo_t info;
+    accrec_t rec;
+    const char *path;
+    int32 fid = fresh_file(&path);
+    if (fid == FAIL) return;
+    int sz;
+    switch ((int)hk_range(0, 9)) {
+        case 0: sz = (int)hk_range(1, NBIT_MASK_SIZE); break;       /* any size the mask arrays can hold */
+        case 1: sz = (int)hk_range(3, 7); break;
+        default: { static const int S[] = {1, 2, 4, 8}; sz = HK_PICK(S); } break;
+    }
+    int nbits = 8 * sz;
+    int start = hk_chance(25) ? nbits - 1 : (int)hk_range(0, nbits - 1);
+    int len = hk_chance(20) ? start + 1 : hk_chance(20) ? 1 : (int)hk_range(1, start + 1);
+    int sign = hk_chance(50), fill = hk_chance(50);
+    int nvals;
+    switch ((int)hk_range(0, 7)) {
+        case 0: nvals = (int)hk_range(1, 3); break;
+        case 1: nvals = 1024 / sz + (int)hk_range(-2, 2); break;      /* around NBIT_BUF_SIZE */
+        case 2: nvals = (int)hk_range(1024 / sz, 3 * 1024 / sz); break;
+        default: nvals = (int)hk_range(1, 60); break;
+    }
+    if (nvals < 1) nvals = 1;
+    int n = nvals * sz;
+    int cut = hk_chance(25) ? (int)hk_range(1, sz) - 1 : 0;            /* the last value may be written incompletely */
+    for (int i = 0; i < n; i++) data[i] = hk_chance(10) ? 0 : hk_chance(10) ? 0xff : hk_byte();
+    if (sz == 1 || sz == 2 || sz == 4 || sz == 8)
+        for (int i = 0; i < nvals; i++) {
+            uint64_t v = 0;
+            for (int b = 0; b < sz; b++) v = (v << 8) | data[i * sz + b];
+            uint64_t e = nbit_expect(nbits, sign, fill, start, len, v);
+            for (int b = 0; b < sz; b++) shadow[i * sz + b] = (uint8_t)(e >> (8 * (sz - 1 - b)));
+        }
+    char cfg[64]; snprintf(cfg, sizeof cfg, "%d %d %d %d %d", sz, sign, fill, start, len);
+    /* ---- write side */
+    int32 bid = Hstartbitwrite(fid, 1005, 7, 0);
+    if (bid == FAIL) { hk_fail("nbitfn-startwrite", "fail"); Hclose(fid); return; }
+    if (Hbitappendable(bid) == FAIL) hk_fail("nbitfn-appendable", "fail");
+    nbit_fn_setup(&info, &rec, bid, sz, sign, fill, start, len);
+    if (HCIcnbit_init(&rec) != SUCCEED) { hk_fail("nbitfn-init", "write"); Hendbitaccess(bid, 0); Hclose(fid); return; }
+    {
+        comp_coder_nbit_info_t *nb = &info.cinfo.coder_info.nbit_info;
+        sb_reset(); sb_printf("T nbit finit %s => ", cfg);
+        for (int i = 0; i < sz; i++) sb_printf("%s%d", i ? "," : "", nb->mask_info[i].offset);
+        sb_printf(";");
+        for (int i = 0; i < sz; i++) sb_printf("%s%d", i ? "," : "", nb->mask_info[i].length);
+        sb_printf(";");
+        for (int i = 0; i < sz; i++) sb_printf("%s%d", i ? "," : "", (int)nb->mask_info[i].mask);
+        sb_printf(";");
+        for (int i = 0; i < sz; i++) sb_printf("%s%d", i ? "," : "", (int)nb->mask_buf[i]);
+        sb_flush();
+        if (nb->buf_pos != NBIT_BUF_SIZE || nb->buf_len != 0 || nb->nt_pos != 0 || nb->offset != 0) hk_fail("nbitfn-init-state", "buf_pos=%d buf_len=%d nt_pos=%d offset=%d", nb->buf_pos, nb->buf_len, nb->nt_pos, (int)nb->offset);
+        int tot = 0;
+        for (int i = 0; i < sz; i++) tot += nb->mask_info[i].length;
+        if (tot != len) hk_fail("nbitfn-init-widths", "cfg(%s): the mask lengths add up to %d", cfg, tot);
+    }
+    int wn = n - cut;
+    static char lens[200000]; size_t ll = 0; lens[0] = 0;
+    {
+        int pos = 0, style = (int)hk_range(0, 3);
+        while (pos < wn && ll < sizeof lens - 64) {
+            int l = style == 0 ? wn - pos : style == 1 ? (int)hk_range(0, 2 * sz + 1) : style == 2 ? (int)hk_range(1, 700) : sz * (int)hk_range(1, 5);
+            if (l > wn - pos) l = wn - pos;
+            if (HCIcnbit_encode(&info, l, data + pos) != SUCCEED) { hk_fail("nbitfn-encode", "HCIcnbit_encode(%d)", l); break; }
+            ll += (size_t)sprintf(lens + ll, "%s%d", ll ? "," : "", l);
+            pos += l;
+        }
+        if (info.cinfo.coder_info.nbit_info.offset != wn) hk_fail("nbitfn-encode-offset", "offset=%d after %d bytes", (int)info.cinfo.coder_info.nbit_info.offset, wn);
+        if (info.cinfo.coder_info.nbit_info.nt_pos != wn % sz) hk_fail("nbitfn-encode-ntpos", "nt_pos=%d after %d bytes of size %d", info.cinfo.coder_info.nbit_info.nt_pos, wn, sz);
+    }
+    if (Hendbitaccess(bid, 0) == FAIL) hk_fail("nbitfn-endwrite", "fail");
+    int32 g = Hlength(fid, 1005, 7);
+    if (g < 0 || g > MAXB) g = 0;
+    if (g > 0 && Hgetelement(fid, 1005, 7, raw) != g) hk_fail("nbitfn-getraw", "len=%d", (int)g);
+    sb_reset(); sb_printf("T nbit fenc %s ", cfg); sb_hex(data, (size_t)wn); sb_printf(" %s => ", ll ? lens : "-"); sb_hex(raw, (size_t)g); sb_flush();
+    if (g == 0) { hk_stat("nbitfn_empty", 1); Hclose(fid); return; }
+    /* ---- read side: any byte counts, also ones that cut a value; never more than the whole values written */
+    int whole = (wn / sz) * sz;
+    bid = Hstartbitread(fid, 1005, 7);
+    if (bid == FAIL) { hk_fail("nbitfn-startread", "fail"); Hclose(fid); return; }
+    nbit_fn_setup(&info, &rec, bid, sz, sign, fill, start, len);
+    if (HCIcnbit_init(&rec) != SUCCEED) hk_fail("nbitfn-init", "read");
+    static uint8_t got[MAXB + 16];
+    int pos = 0, outn = 0, style = (int)hk_range(0, 4);
+    ll = 0; lens[0] = 0;
+    while (pos < whole && ll < sizeof lens - 64) {
+        int l = style == 0 ? whole - pos : style == 1 ? (int)hk_range(0, 2 * sz + 1) : style == 2 ? (int)hk_range(1, 1500) : style == 3 ? sz * (int)hk_range(1, 300) : (int)hk_range(1, 40);
+        if (l > whole - pos) l = whole - pos;
+        memset(rbuf, 0xA5, (size_t)l + 8);
+        if (HCIcnbit_decode(&info, l, rbuf) != SUCCEED) { hk_fail("nbitfn-decode", "HCIcnbit_decode(%d) at %d of %d", l, pos, whole); break; }
+        if (rbuf[l] != 0xA5) hk_fail("nbitfn-decode-overrun", "HCIcnbit_decode(%d) wrote behind the buffer", l);
+        ll += (size_t)sprintf(lens + ll, "%s%d", ll ? "," : "", l);
+        memcpy(got + outn, rbuf, (size_t)l); outn += l; pos += l;
+    }
+    if (info.cinfo.coder_info.nbit_info.offset != outn) hk_fail("nbitfn-decode-offset", "offset=%d after %d bytes", (int)info.cinfo.coder_info.nbit_info.offset, outn);
+    Hendbitaccess(bid, 0);
+    if (sz == 1 || sz == 2 || sz == 4 || sz == 8) {
+        int i; for (i = 0; i < outn && got[i] == shadow[i]; i++) {}
+        if (i < outn) hk_fail("nbitfn-read-data", "cfg(%s) reads %s: byte %d is %02x, projection says %02x", cfg, ll < 60 ? lens : "(long)", i, got[i], shadow[i]);
+    }
+    sb_reset(); sb_printf("T nbit fdec %s ", cfg); sb_hex(raw, (size_t)g); sb_printf(" %s => ", ll ? lens : "-"); sb_hex(got, (size_t)outn); sb_flush();
+    /* ---- end of the data: one call that needs more items than the element holds (its padding bits included) */
+    if (hk_chance(40) && g <= 64) {
+        bid = Hstartbitread(fid, 1005, 7);
+        if (bid != FAIL) {
+            nbit_fn_setup(&info, &rec, bid, sz, sign, fill, start, len);
+            if (HCIcnbit_init(&rec) != SUCCEED) hk_fail("nbitfn-init", "eof");
+            int items = (int)((8L * g) / len) + (int)hk_range(1, 3);
+            int l = items * sz;
+            if (l <= MAXB) {
+                int32 r = HCIcnbit_decode(&info, l, rbuf);
+                sb_reset(); sb_printf("T nbit feof %s ", cfg); sb_hex(raw, (size_t)g); sb_printf(" %d => %s", l, r == SUCCEED ? "ok" : "fail"); sb_flush();
+                if (!sign && r == SUCCEED) hk_fail("nbitfn-eof-accepted", "cfg(%s): %d bytes decoded from a %d-byte element", cfg, l, (int)g);
+                hk_stat("nbitfn_eof", 1);
+            }
+            Hendbitaccess(bid, 0);
+        }
+    }
+    hk_stat("nbitfn_cases", 1); hk_stat((sz == 1 || sz == 2 || sz == 4 || sz == 8) ? "nbitfn_std_size" : "nbitfn_odd_size", 1);
+    if (cut) hk_stat("nbitfn_cut_value", 1);
+    Hclose(fid);
+}
+
 /* exhaustive sweep of (start_bit, bit_len) for the 8- and 16-bit types: every pair, a few values each, one file */
 static void case_nbit_sweep(void)
 {
@@ -765,7 +919,7 @@ static void case_splay(void)
 static long enabled = 0xFFFF;
 static void run_case(int k)
 {
-    static const struct { int bit, weight; } C[] = {{1, 14}, {2, 10}, {4, 20}, {8, 2}, {16, 3}, {32, 28}, {64, 19}, {128, 2}, {256, 2}, {512, 4}};
+    static const struct { int bit, weight; } C[] = {{1, 14}, {2, 10}, {4, 20}, {8, 2}, {16, 3}, {32, 28}, {64, 19}, {128, 2}, {256, 2}, {512, 4}, {4096, 14}};
     int tot = 0, i;
     for (i = 0; i < (int)(sizeof C / sizeof C[0]); i++) if (enabled & C[i].bit) tot += C[i].weight;
     if (tot == 0) return;
@@ -786,6 +940,7 @@ static void run_case(int k)
         case 128: case_probe(); break;
         case 256: case_nbit_sweep(); break;
         case 512: case_splay(); break;
+        case 4096: case_nbit_fn(); break;
     }
 }
 
